@@ -155,6 +155,17 @@ func (f *file) UnusedImports() []File {
 		}
 	}
 
+	exts := f.DefinedExtensions()
+	for _, msg := range f.AllMessages() {
+		exts = append(exts[:len(exts):len(exts)], msg.DefinedExtensions()...)
+	}
+	for _, ext := range exts {
+		for _, imp := range ext.Type().Imports() {
+			delete(mp, imp.Name().String())
+		}
+		delete(mp, ext.Extendee().File().Name().String())
+	}
+
 	out := make([]File, 0, len(mp))
 	for _, fl := range mp {
 		out = append(out, fl)
